@@ -132,10 +132,12 @@ class TrajectoryExporter:
             is_init=True,
         )
         triplets = []
+        # the domain's constants are objects of the problem as well (e.g., for universal effects).
+        problem_objects = {**self.domain.constants, **problem.objects}
         self.logger.debug("Starting to create the trajectory triplets.")
         for grounded_action_call in plan_actions:
             triplet = self.create_single_triplet(
-                previous_state, grounded_action_call, problem.objects
+                previous_state, grounded_action_call, problem_objects
             )
             triplets.append(triplet)
             previous_state = triplet.next_state
